@@ -6,7 +6,7 @@
    rest of the queue as dropped, so the statements below hold for EVERY program, split and fuel). *)
 From Coq Require Import List Arith Bool Permutation.
 Import ListNotations.
-From Verif.C10 Require Import Model Proofs Proofs2 Proofs3 Proofs4.
+From Verif.C10 Require Import Model Proofs Proofs2 Proofs3 Proofs4 Proofs5.
 
 (* 1. goja's machine (double-buffered drain loop of Runtime.leave, leaveAbrupt) reaches exactly the
       state of the specification machine (HostEnqueuePromiseJob = plain FIFO): same event log, same
@@ -92,6 +92,13 @@ Corollary tracker_prefix : forall T fuel runs p,
   exists rest, tf p (tlog (runI T fuel runs)) ++ rest = [TReject; THandle].
 Proof. exact Proofs3.tracker_prefix. Qed.
 
+(* 7. fuel is only a bound: a history that did not exhaust its fuel is unchanged by any larger fuel.
+      (The correspondence check requires exhausted = false, so what it compares with goja is the
+      fuel-free meaning of the program.  Termination of every stratified program is NOT proved.) *)
+Theorem fuel_irrelevant : forall T fuel k runs,
+  exhausted (runI T fuel runs) = false -> runI T (fuel + k) runs = runI T fuel runs.
+Proof. exact Proofs5.fuel_irrelevant. Qed.
+
 (* ---------------------------------------------------------------------------------------------- *)
 (* non-vacuity: concrete programs exercising each statement *)
 
@@ -153,3 +160,4 @@ Print Assumptions latched_pair_is_noop.
 Print Assumptions tracker_language.
 Print Assumptions tracker_prefix.
 Print Assumptions reaction_record_jobbed_once.
+Print Assumptions fuel_irrelevant.
